@@ -25,7 +25,7 @@ FUNCTIONS = ['AcquisitionRegistry.get_registry_at', 'DispersiveMeasure.acquisiti
 BOUNDS = {'quick': "900 seeded random programs: <= 4 steps per circuit, nesting <= 2, repetition 1..2, measurements on qubits {0,1,2} with tags {'', 'a', 'b'} against the registry "
                    "of their own circuit or of the top-level circuit, mixed with Wait/Rx180/CPhase/Barrier; 300 of them implicitly sequenced (time-order clause, symbolic durations); "
                    "library circuits d in {2,3}, cycles 0..2 and qutrit calibration (time-order clause, symbolic global durations)",
-          'thorough': "5000 programs with <= 5 steps, nesting <= 3, repetition 1..3; library d <= 3, cycles 0..4"}
+          'thorough': "3000 programs with <= 4 steps, nesting <= 3, repetition 1..3 (time-order clause on those with <= 10 leaves); library d <= 3, cycles 0..4 symbolic, index clauses up to 7 cycles, d <= 4"}
 OUTSIDE = ["measurements created against a registry of an unrelated circuit (index -1 by design)", "qubit labels and tags are concrete (get_acquisition_indices dispatches on the argument type)"]
 ASSUMPTIONS = ["memo caches start empty", "the exported record order is read from the real stim circuit (concrete integers only)"]
 REQUIRED_REACH = ['C07.circuit_level', 'C07.qubit_level', 'C07.filter_qubit', 'C07.filter_tag', 'C07.tag_partition', 'C07.record_order', 'C07.time_order', 'C07.time_order.library']
@@ -44,14 +44,14 @@ def alphabet():
 
 def jobs(tier, seed):
     rng = random.Random(seed + 7)
-    n, steps, depth, reps = (900, 4, 2, (1, 2)) if tier == 'quick' else (5000, 5, 3, (1, 2, 3))
+    n, steps, depth, reps = (900, 4, 2, (1, 2)) if tier == 'quick' else (3000, 4, 3, (1, 2, 3))
     alpha = alphabet()
     out = []
     for i in range(n):
         implicit = i % 3 == 0
         p = gen.random_program(rng, alpha, steps, depth, types='FSE', p_sub=0.35, p_rel=0.0 if implicit else 0.35, reps=reps, sub_rel=False)
-        if gen.count_leaves(p) > 24:
-            continue
+        if gen.count_leaves(p) > 24 or (implicit and gen.count_leaves(p) > 10):
+            continue   # the time-order clause reads symbolic schedules: keep those programs small
         out.append({'prog': p, 'implicit': implicit, 'preread': i % 2 == 1})
     dmax, cmax = (3, 2) if tier == 'quick' else (3, 4)
     for d in range(2, dmax + 1):
